@@ -402,7 +402,7 @@ func classify(f forged, certErr error) string {
 	}
 	if certErr != nil {
 		s := certErr.Error()
-		for _, k := range []string{"not a commit", "not a committee member", "repeated", "quorum", "does not deserialize", "does not verify", "does not hash"} {
+		for _, k := range []string{"not a committee member", "not a commit", "repeated", "quorum", "does not deserialize", "does not verify", "does not hash"} {
 			if bytes.Contains([]byte(s), []byte(k)) {
 				return k
 			}
